@@ -368,7 +368,37 @@ func (w *world) fixedStall() {
 	}
 }
 
+// fixedEnlargeWhileSaturated (regression corpus, C02/C04): the receiver's delivery queue is full and
+// in-order segments wait behind it in the reorder buffer; the application raises the receive window
+// and then reads.  Everything that is in order must move on to the reader — it is the tail of the
+// transfer, already acknowledged, nothing will ever arrive again to push it.
+func (w *world) fixedEnlargeWhileSaturated() {
+	w.begin(cfg{}, 31)
+	w.stream = false
+	w.setNoDelay(w.a, 1, 10, 2, 1)
+	w.setNoDelay(w.b, 1, 10, 2, 1)
+	w.setWnd(w.b, 32, 4)
+	w.now = 0
+	for i := 0; i < 8; i++ {
+		w.send(w.a, []byte{byte(0x40 + i)})
+	}
+	w.flush(w.a, true) // all eight leave (the peer's window is still believed to be 32)
+	pk := w.netAB
+	w.netAB = nil
+	for _, p := range pk {
+		w.input(w.b, p, true, false) // sn 0-3 -> delivery queue (full), sn 4-7 -> reorder buffer
+	}
+	w.b.resized = true
+	w.setWnd(w.b, 32, 16)
+	w.recvAll(w.b)
+	w.now = 10
+	w.flush(w.b, true)
+	w.drain()
+	w.end()
+}
+
 func (w *world) fixedAll() {
+	w.fixedEnlargeWhileSaturated()
 	w.fixedTimeoutAndEarlyInOneFlush()
 	for _, base := range []uint32{0, 1 << 31} { // 0 = 2^32
 		w.fixedReorderAcrossWrap(base, []int{7, 6, 5, 4, 3, 2, 1, 0})
